@@ -2,7 +2,7 @@
 import json
 
 from .. import gen, json_ref, model, zinc_ref
-from ..core import Acc, Violation, guarded, run_hypothesis, shard_seed
+from ..core import Acc, Violation, describe_exc, guarded, run_hypothesis, shard_seed
 
 PROPERTY = 'C07'
 RULE = ('documents produced by the independent ZINC and JSON writers of C03/C05 (so the grids hold parser-made values: '
@@ -11,7 +11,7 @@ RULE = ('documents produced by the independent ZINC and JSON writers of C03/C05 
         'by hszinc; then (1) dump in both formats must not raise, (2) parsing each dump gives an equal grid (kind-strict '
         'comparator; six-decimal tolerance after a JSON hop; date-times by instant and offset), also along the chains '
         'ZINC->JSON->ZINC and JSON->ZINC->JSON, (3) dumping does not change the grid (model and row identity) and two dumps '
-        'are identical, (4) N(x)=dump(parse(x)) is idempotent as text in both formats. Non-trivial = document holds a '
+        'are identical, (4) N(x)=dump(parse(x)) is idempotent as text in both formats. (5) a table of odd tokens (malformed hex/base64 payloads, out-of-range numbers, times, dates, coordinates, odd Refs, Bins, units, look-alike JSON strings) in every position: whatever parse accepts must be dumpable in both formats. Non-trivial = document holds a '
         'parser-made date-time, a non-official version label, a raw JSON number or nested data; distinct by (models, plan).')
 ASSUMPTIONS = ['zone-less date-times use whole-hour offsets -12..+14 (a zone with that offset always exists, otherwise '
                'ValueError would be legitimate per C17)',
@@ -106,6 +106,70 @@ def check(case):
     return True
 
 
+ODD_ZINC = ['hex("zz")', 'hex("abc")', 'hex("DEADBEEF")', 'hex("")', 'hex("de ad")', 'b64("!!")', 'b64("QQ")', 'b64("QUJD=")', 'b64("")',
+            'b64("QU JD")', 'Hex("zz")', 'B64("!!")', 'Foo("")', 'X("\\u0000")', '1e999', '-1e999', '1e-999', '0.1e1', '1_000', '5_', '5kW/h', '5%', '5$',
+            '24:00:00', '23:59:60', '00:00:00.0000001', '12:00', '0000-01-01', '0001-01-01', '9999-12-31', '2021-02-29', '2020-02-29',
+            '2020-01-01T00:00:00Z', '2020-01-01T00:00:00Z UTC', '2020-01-01T00:00:00+00:00 UTC', '2020-01-01T00:00:00-00:00', '2020-01-01T00:00:00+14:00',
+            '2020-01-01T00:00:00+15:00', '2020-01-01T00:00:00+05:17', '2020-01-01T00:00:00+05:17 Kolkata', '2020-01-01T00:00:00Z London',
+            '2020-01-01T00:00:00+10:00 Nowhere', '2020-01-01T00:00:00-05:00 Knox', '2020-01-01T24:00:00Z', '0002-01-01T00:00:00+14:00', '9998-12-31T23:59:59-12:00',
+            'C(91,181)', 'C(-90.0,-180.0)', 'C(1e2,1)', 'C(1,2', 'C(NaN,1)', 'Bin(x)', 'Bin(text/plain; charset=utf-8)', 'Bin("a b")', 'Bin()', '@', '@a b', '@a "d" x',
+            '@-', '@~', '`a b`', '`\\x`', '"\\x"', '"\\ud800"', '"\\udc00\\ud800"', 'T', 'F', 'M', 'R', 'N', 'NA', 'INF', '-INF', 'NaN', '-NaN', '+1', '.5', '5.', '0x10',
+            '[1,', '[,]', '[1 2]', '[[1]]', '{a}', '{a:}', '{a b}', '{a:1 b:2}', '{a:1,b:2}', '{-a}', '{a:{b:{c:M}}}', '<<ver:"3.0"\nx\n>>',
+            '<<ver:"2.0"\nx\nNA\n>>', '<<\nver:"3.0"\nx\n1\n>>', 'True', 'null', 'nan', 'inf']
+ODD_JSON = ['x:hex:zz', 'x:hex:abc', 'x:hex:DEADBEEF', 'x:hex:', 'x:b64:!!', 'x:b64:QQ', 'x:b64:', 'x:Foo:', 'x:Foo', 'x:', 'x::', 'n:', 'n:abc', 'n:1e999',
+            'n:-1e999', 'n:1 ', 'n:1  kW', 'n: 1', 'n:1 kW m', 'n:INF', 'n:-INF', 'n:NaN', 'n:inf', 'n:nan', 'n:+1', 'n:.5', 'n:0x10', 'n:1_0', 'h:24:00:00',
+            'h:12:00', 'h:12', 'h:12:00:00.0000001', 'h:', 'd:0000-01-01', 'd:2021-02-29', 'd:2020-1-1', 'd:', 't:2020-01-01T00:00:00Z',
+            't:2020-01-01T00:00:00Z UTC', 't:2020-01-01T00:00:00+05:17', 't:2020-01-01T00:00:00+05:17 Kolkata', 't:2020-01-01T00:00:00Z London',
+            't:2020-01-01T00:00:00+10:00 Nowhere', 't:2020-01-01T00:00:00-05:00 Knox', 't:2020-01-01T00:00:00', 't:2020-01-01', 't:', 'c:91,181', 'c:1', 'c:1,2,3',
+            'c:a,b', 'c:', 'c:1e2,1', 'b:', 'b:a b', 'r:', 'r: d', 'r:a b c', 'r:a  ', 'u:', 'u:a b', 's:', 'm:', 'm:x', 'z:', 'z:x', '-:', '-:x', 'x:y', 'q:1', ':',
+            'a:b', 'ab', 'a', '', 'N', 'NA', 'T', 'M', 'null', 1, -0.0, 1e308, 2 ** 63, True, None, [], {}, [[1]], {'a': {'b': 'm:'}}, [None], {'': 1}, {'A': 1}]
+
+
+def raw_cases():
+    for i, tok in enumerate(ODD_ZINC):
+        for ver in ('2.0', '3.0'):
+            for k, doc in enumerate(('ver:"%s"\na,b\n%s,1\n', 'ver:"%s" m:%s\na\n1\n', 'ver:"%s"\na x:%s\n1\n', 'ver:"%s"\na\n[%s]\n', 'ver:"%s"\na\n{t:%s}\n')):
+                if k >= 3 and ver != '3.0':
+                    continue
+                yield {'raw': doc % (ver, tok), 'src': 'zinc'}
+    for i, tok in enumerate(ODD_JSON):
+        for ver in ('2.0', '3.0'):
+            for k in range(5):
+                if k >= 3 and ver != '3.0':
+                    continue
+                cell = [tok, 1, 1, [tok, 's:x'], {'t': tok}][k]
+                obj = {'meta': dict({'ver': ver}, **({'m': tok} if k == 1 else {})), 'cols': [dict({'name': 'a'}, **({'x': tok} if k == 2 else {}))],
+                       'rows': [{'a': cell}]}
+                yield {'raw': json.dumps(obj), 'src': 'json'}
+
+
+def check_raw(case):
+    """case = {'raw': text, 'src': fmt} - a text that is not necessarily well-formed.  Whether hszinc accepts it is not
+    C07's business; but *if* parse returns grids, they can be dumped in both formats without error (what an ill-formed but
+    tolerated text denotes is not defined, so nothing is compared).  Returns 'rejected' | 'accepted'."""
+    import hszinc
+    try:
+        g0s = hszinc.parse(case['raw'], mode=_mode(case['src']), single=False)
+    except Exception:  # noqa - a refused text is out of scope here (C09 / C05 decide how it has to be refused)
+        return 'rejected'
+    try:
+        base = [model.to_model(g) for g in g0s]
+    except Exception:  # noqa - parse produced something the harness has no model for; only the no-raise part applies
+        base = None
+    for fmt in ('zinc', 'json'):
+        try:
+            t1 = hszinc.dump(g0s, mode=_mode(fmt))
+        except ValueError as e:
+            # a date-time read with a bare offset that no Haystack zone observes cannot be written (no zone name exists
+            # for it): ValueError is the documented outcome (C17), for this value only
+            if base is not None and any(v[0] == 'dt' and v[3] is None for b in base for v in _walk(b)):
+                return 'accepted-unwritable-offset'
+            raise Violation('redump-raises', case, 'raised ' + describe_exc(e), (type(e).__name__,))
+        except Exception as e:  # noqa
+            raise Violation('redump-raises', case, 'raised ' + describe_exc(e), (type(e).__name__,))
+    return 'accepted'
+
+
 def nontrivial(ms, src):
     for m in ms:
         if m[1] not in ('2.0', '3.0') or model.depth(m) > 1:
@@ -144,13 +208,24 @@ def _walk(m):
 
 def plan(tier, seed, excl):
     q = tier == 'quick'
-    return [('docs', {'src': s, 'shard': i, 'n': 700 if q else 6000}) for s in ('zinc', 'json') for i in range(8)]
+    return [('docs', {'src': s, 'shard': i, 'n': 700 if q else 6000}) for s in ('zinc', 'json') for i in range(8)] + [('odd-texts', {})]
 
 
 def run(part, args, env):
     from hypothesis import strategies as st
     acc = Acc(part)
     excl = frozenset(env['excl'])
+    if part == 'odd-texts':
+        for case in raw_cases():
+            try:
+                r = check_raw(case)
+                acc.case(case, r == 'accepted', labels=('odd-text:%s:%s' % (case['src'], r),))
+                if r == 'accepted' and acc.want_sample():
+                    acc.sample(case)
+            except Violation as v:
+                acc.violation(v)
+        acc.exhaustive['odd-token table x positions x versions'] = True
+        return acc
     src = args['src']
     g = gen.spelled_grids(None, 2, excl, True, 3, 3, 2, src)
     strat = st.builds(lambda gs, picks, c, multi: {
@@ -173,6 +248,8 @@ def run(part, args, env):
 
 
 def replay(stage, case):
+    if 'raw' in case:
+        return check_raw(case)
     case = dict(case)
     for k in ('doc', 'text', 'once', 'twice'):
         case.pop(k, None)
